@@ -578,7 +578,9 @@ class Sim:
             if via == 'os.kill' and w.death_sent:
                 return            # on_death: make sure the worker is gone
             if sk == 'scan':
-                if not any(j.must == 'tle' and j.owner == w.pid for j in self.jobs.values()):
+                if not any(j.kind == 'apply' and j.owner == w.pid and j.t_acc is not None
+                           and j.hard and self.clock.t >= j.t_acc + j.hard
+                           for j in self.jobs.values()):
                     self.viol({'C05'}, 'term_signal_without_expired_hard_limit', pid=w.pid)
                 return
             if sk in ('shrink', 'terminate_job'):
@@ -1110,6 +1112,10 @@ class Sim:
         if interleave:
             # a result processed inside the scan may legitimately have won
             allowed |= {j.jid for j in self.jobs.values() if j.obs_step == self.step_no}
+            # an ACK processed inside the scan can make a job eligible in this very pass
+            allowed |= {j.jid for j in self.jobs.values()
+                        if j.kind == 'apply' and j.t_acc is not None and j.hard
+                        and now >= j.t_acc + j.hard}
             must_tle = [j for j in must_tle if j.obs is None or j.obs[0] == 'tle']
         self.log('p_scan', 'must_tle=%s' % [j.jid for j in must_tle],
                  'must_soft=%s' % [j.jid for j in must_soft])
